@@ -681,9 +681,8 @@ def check_cases(rep, work, vh, gojq, cases, tag, counters):
             if any(k["id"] == FID_LENIENT for k in rep.known):
                 rep.known_finding(FID_LENIENT, what)
             else:
-                if "finding_candidates" not in rep.cov:
-                    vc.log("FINDING-CANDIDATE (no open entry %s in known_findings.json yet): %s" % (FID_LENIENT, what))
-                rep.count("finding_candidates")
+                # the defect was repaired (known_findings.json: fixed): if it ever returns it is a violation like any other
+                mism.append((i, v))
         else:
             mism.append((i, v))
     if mism:
